@@ -90,6 +90,7 @@ var (
 	prop      string
 	workers   int
 	scale     = 1
+	fresh     bool // one worker process per seed (no state carried between runs)
 	goraceEnv = "halt_on_error=0 atexit_sleep_ms=0 exitcode=0"
 )
 
@@ -107,6 +108,7 @@ func main() {
 	budget := flag.Int("budget", 900, "thorough: wall budget in seconds")
 	flag.IntVar(&workers, "workers", runtime.NumCPU(), "parallel worker processes")
 	replay := flag.String("replay", "", "replay one file")
+	flag.BoolVar(&fresh, "fresh", false, "run every seed in its own worker process")
 	rule := flag.String("rule", "", "evidence: generation rule text")
 	assume := flag.String("assume", "", "evidence: assumptions, '|' separated")
 	real := flag.String("real", "", "evidence: components running real code, '|' separated")
@@ -417,6 +419,14 @@ func wave(a *agg, from uint64, per, n int, timeout time.Duration) error {
 }
 
 func runWorker(a *agg, from uint64, count int, timeout time.Duration) error {
+	if fresh && count > 1 {
+		for i := 0; i < count; i++ {
+			if err := runWorker(a, from+uint64(i), 1, timeout); err != nil {
+				return err
+			}
+		}
+		return nil
+	}
 	ctx, cancel := context.WithTimeout(context.Background(), timeout)
 	defer cancel()
 	cmd := exec.CommandContext(ctx, worker, "-world", world, "-scale", strconv.Itoa(scale), "-from", strconv.FormatUint(from, 10), "-count", strconv.Itoa(count))
